@@ -8,7 +8,7 @@ What the rewritten record decodes to is what the original record decodes to, wit
 plan's glyph map: the outline of a kept glyph is preserved by construction, not only on the sampled fonts.
 (Proofs: Lemmas/SubsetOutline.lean … SubsetOutline7.lean.)
 -/
-import FontVerif.Lemmas.SubsetOutline9
+import FontVerif.Lemmas.SubsetOutline10
 set_option linter.unusedVariables false
 namespace FontVerif.C17Outline
 open FontVerif FontVerif.Subset FontVerif.SubsetOutline
@@ -101,6 +101,15 @@ theorem composite_glyph_not_emptied_when_components_mapped (flags : Nat) (gmap :
     (hm : ∀ c ∈ Glyf.readComponents ((d.drop 10).length + 1) (d.drop 10), (gmap c.glyph).isSome) :
     ∃ out, subsetGlyphBytes flags gmap d = .bytes out ∧ out ≠ [] :=
   composite_not_emptied flags gmap d hlen hs hc hm
+
+/-- **resubset_simple_glyph_unchanged.**  Re-subsetting idempotence of the per-glyph rewrite, simple glyphs: a record
+that `subset_glyph` wrote non-empty is a fixed point of `subset_glyph` under the same flags (and any glyph map — simple
+glyphs do not consult it): nothing is left to trim, the instruction length is already 0 under NO_HINTING, the overlap bit
+is already set under SET_OVERLAPS_FLAG.  (Composites: oracle `resubset-observations-unchanged` only.) -/
+theorem resubset_simple_glyph_unchanged (flags : Nat) (gmap gmap' : Nat → Option Nat) (d out : Bytes)
+    (hs : u16At d 0 < 32768) (h : subsetGlyphBytes flags gmap d = .bytes out) (hne : out ≠ []) :
+    subsetGlyphBytes flags gmap' out = .bytes out :=
+  simple_resubset_idempotent flags gmap gmap' d out hs h hne
 
 /-! ## non-vacuity -/
 
